@@ -492,11 +492,14 @@ def main():
     ap.add_argument("--replay")
     ap.add_argument("--only", help="substring filter on harness names (debugging; evidence is not written)")
     ap.add_argument("--keep", action="store_true")
+    ap.add_argument("--thorough-only", action="store_true", help="run only the harnesses that the thorough tier adds (debugging; evidence is not written)")
     ap.add_argument("--no-replay", action="store_true")
     a = ap.parse_args()
     tier = os.environ.get("VERIF_TIER") or a.tier
     if tier not in ("quick", "thorough"):
         tier = "quick"
+    if a.thorough_only:
+        tier = "thorough"
     pid = a.prop
     if pid not in P.PROPS:
         log("unknown or not-applicable property " + pid)
@@ -510,6 +513,9 @@ def main():
     hs = [h for h in prop["harnesses"] if h.get("tier", "quick") == "quick" or (tier == "thorough" and h.get("tier") == "thorough") or (exp and h.get("tier") == "experimental")]
     if a.only:
         hs = [h for h in hs if a.only in h["name"]]
+    if a.thorough_only:
+        hs = [h for h in prop["harnesses"] if h.get("tier") == "thorough"]
+        a.only = a.only or "(thorough-only)"
     random.Random(seed).shuffle(hs)
     # longest first so the pool drains evenly
     hs.sort(key=lambda h: -h.get("cost", 0))
